@@ -714,17 +714,20 @@ def mm_handlers(chk, r1="C07.R1", r2="C07.R2", r5="C07.R5"):
     except AnalysisError:
         pass
     for h in hs:
-        if not set(h.ops) & {"aten.mm", "aten.bmm"}:
+        if not set(h.ops) & {"aten.mm", "aten.bmm", "aten.mv"}:
             continue
         is_b = "aten.bmm" in h.ops
+        is_v = "aten.mv" in h.ops and not is_b  # matrix x vector: the second operand has one dimension (and can only be quantized per-tensor)
         opn, inp, oth = positional_params(h.fn)[:3]
         lead = (L("B"),) if is_b else ()
         scale_opts_in = [("per-tensor", (), None), ("per-axis(0)", lead[:0] + ((L("B"),) if is_b else (L("n"),)) + (ONE,) * (2 if is_b else 1), 0), ("per-axis(-1)", (ONE,) * (2 if is_b else 1) + (L("m"),), -1)]
         scale_opts_oth = [("per-tensor", (), None), ("per-axis(0)", ((L("B"),) if is_b else (L("m"),)) + (ONE,) * (2 if is_b else 1), 0), ("per-axis(-1)", (ONE,) * (2 if is_b else 1) + (L("p"),), -1)]
+        if is_v:
+            scale_opts_oth = [("per-tensor", (), None)]
         n = 0
         for (di, si, ai), (do, so, ao) in itertools.product(scale_opts_in, scale_opts_oth):
             x = Q(lead + (L("n"), L("m")), ai, si, "input")
-            y = Q(lead + (L("m"), L("p")), ao, so, "other")
+            y = Q(lead + (L("m"), L("p")), ao, so, "other") if not is_v else Q((L("m"),), ao, so, "other")
             if ai is None:
                 x.data.strides = {"stride0"}  # a per-tensor operand may be the result of expand(): stride 0 along a dimension
             if ao is None:
@@ -734,7 +737,7 @@ def mm_handlers(chk, r1="C07.R1", r2="C07.R2", r5="C07.R5"):
                 for z in (a, b):
                     if isinstance(z, Q):
                         raise lb._Raised("re-dispatch")  # handled by C05 (fallback paths)
-                return lb.matmul(a, b, "bmm" if _is_b else "mm")
+                return lb.matmul(a, b, "bmm" if _is_b else ("mv" if is_v else "mm"))
 
             def qfallback(*args, **kw):
                 raise lb._Raised("fallback")
@@ -744,7 +747,7 @@ def mm_handlers(chk, r1="C07.R1", r2="C07.R2", r5="C07.R5"):
             if kernel is not None:
                 env["qbytes_mm"] = kernel  # a handler may delegate to the library kernel
             res = Interp(h.fn, env, helpers).run()
-            want = lead + (L("n"), L("p"))
+            want = lead + (L("n"), L("p")) if not is_v else (L("n"),)
             what = f"{h.name}: input {di}, other {do}"
             site = f"{h.mi.rel}:{h.fn.lineno}"
             for status, val, trace in res:
